@@ -131,3 +131,96 @@ Example C05_ddl_escape_word_refuted :
                [DataTypeRT.TWord (ident_text 1); DataTypeRT.TWord (ident_text 2); DataTypeRT.TWord (ident_text 3);
                 DataTypeRT.TWord (ident_text 4); DataTypeRT.TStr (ident_text 5)]).
 Proof. vm_compute. reflexivity. Qed.
+
+(** * The column types (DataTypeContent.v, DdlCoreContent.v): the data type parser keeps every content token of
+    what it consumes, for EVERY type it can return (table-driven families with their lengths / precisions /
+    scales, array sizes, ENUM / SET values, the DateTime64 time zone, STRUCT / UNION / Tuple / Nested field
+    names, custom type names and modifiers) — so [col_faithful] above holds of every column.  [keep] must also
+    reject the words the type grammar reads or prints as keywords ([type_kws], any capitalisation: [int] is
+    printed [INT]); the tables pass the decidable test [content_tables_ok].  Numbers are compared by value
+    ([TNum n]; VARCHAR(007): known finding parse_literal_uint:normalised, implementation side). *)
+Require SqlV.DataTypeContent SqlV.DdlCoreContent.
+
+Lemma C05_type_tables_ok : forall d, In d DdlTables.all_ddialects ->
+  DataTypeContent.content_tables_ok (DdlCore.dtab d) = true.
+Proof.
+  intros d H. cbn [DdlTables.all_ddialects In] in H.
+  repeat (destruct H as [H|H]; [subst d; vm_compute; reflexivity|]). destruct H.
+Qed.
+
+Theorem C05_type_content : forall d (keep : DdlCore.dtok -> bool) l t r,
+  In d DdlTables.all_ddialects ->
+  (forall t, keep t = true -> DdlCoreInv.is_lit (DdlCore.tv t) = true) ->
+  (forall t w, DdlCore.tv t = DataTypeRT.TWord w ->
+     DataTypeRT.mem_str (ascii_upper w) (DataTypeContent.type_kws (DdlCore.dtab d)) = true -> keep t = false) ->
+  Forall DdlCoreInv.lexed l -> DdlCore.dtype d l = Ok (t, r) ->
+  filter keep l = filter keep (DdlCore.type_toks (DdlCore.dtab d) t) ++ filter keep r.
+Proof.
+  intros d keep l t r Hin Hlit Hty.
+  exact (DdlCoreContent.dtype_content d keep Hlit Hty (C05_type_tables_ok d Hin) l t r).
+Qed.
+Print Assumptions C05_type_content.
+
+(** [C05_ddl_content_ordered] / [C05_ddl_content] without the hypothesis on the column types *)
+Theorem C05_ddl_content_types : forall d (keep : DdlCore.dtok -> bool) fuel ts c rest,
+  In d DdlTables.all_ddialects ->
+  (forall t, DdlCore.kwc t <> None -> keep t = false) ->
+  (forall t, keep t = true -> DdlCoreInv.is_lit (DdlCore.tv t) = true) ->
+  (forall t w, DdlCore.tv t = DataTypeRT.TWord w ->
+     DataTypeRT.mem_str (ascii_upper w) (DataTypeContent.type_kws (DdlCore.dtab d)) = true -> keep t = false) ->
+  DdlCore.parse_create_table_core d fuel ts = Ok (c, rest) ->
+  Forall DdlCoreInv.lexed ts -> DdlCoreInv.dword_escape c = false ->
+  (exists els, (DdlCore.columns c, DdlCore.constraints c) = DdlCoreProofs.split_elems els /\
+     filter keep ts = filter keep (DdlCoreInv.dtoks_in d c els ++ rest)) /\
+  Permutation (filter keep ts) (filter keep (DdlCore.dtoks (DdlCore.dtab d) c ++ rest)).
+Proof.
+  intros d keep fuel ts c rest Hin Hkw Hlit Hty H Hl Hc.
+  exact (conj
+    (DdlCoreContent.ddl_content_ordered_types d keep Hlit Hty (C05_type_tables_ok d Hin) (C05_ddl_tables_ok d Hin) Hkw fuel ts c rest H Hl Hc)
+    (DdlCoreContent.ddl_content_types d keep Hlit Hty (C05_type_tables_ok d Hin) (C05_ddl_tables_ok d Hin) Hkw fuel ts c rest H Hl Hc)).
+Qed.
+Print Assumptions C05_ddl_content_types.
+
+(** the content predicate of the property meets the condition: every type keyword is in keywords::ALL_KEYWORDS *)
+Lemma C05_ddl_content_tok_types_ok : forall d, In d DdlTables.all_ddialects ->
+  forall t w, DdlCore.tv t = DataTypeRT.TWord w ->
+    DataTypeRT.mem_str (ascii_upper w) (DataTypeContent.type_kws (DdlCore.dtab d)) = true -> ddl_content_tok t = false.
+Proof.
+  intros d H. apply DdlCoreContent.content_tok_type_kw. cbn [DdlTables.all_ddialects In] in H.
+  repeat (destruct H as [H|H]; [subst d; vm_compute; reflexivity|]). destruct H.
+Qed.
+
+(** what the conditions exclude.  Tokens that are not lexed (the two views of a token disagree): the equation
+    is on tokens, and the printed type is lexed — VARCHAR ( 7 ) with a number token whose expression view is
+    missing *)
+Example C05_type_content_unlexed_refuted :
+  let l := [DdlCore.TW "VARCHAR"; DdlCore.P_LParen; DdlCore.DTok (DataTypeRT.TNum 7) None; DdlCore.P_RParen] in
+  exists t, DdlCore.dtype DdlTables.dd_generic l = Ok (t, []) /\
+    filter ddl_content_tok l <> filter ddl_content_tok (DdlCore.type_toks DataTypeTables.dt_tables t) ++ [].
+Proof. eexists. split; [vm_compute; reflexivity|]. vm_compute. discriminate. Qed.
+(** a content predicate that keeps type keywords ([int] is printed [INT]); a Display row of another family than
+    the parser alternative (the length is not printed); custom type modifiers: the model keeps the modifier
+    token and identifies ['x'] with [x] only in [dt_eqb], so the content is not invariant under [dt_eqb]
+    (known finding datatype:custom-modifier-quotes, implementation side) *)
+Example C05_type_content_kw_refuted :
+  DataTypeContent.content_tables_ok DataTypeContent.T_int = true /\
+  DataTypeRT.parse_dt DataTypeContent.T_int (s2l "generic") [DataTypeRT.TWord (s2l "int")] =
+    DataTypeRT.POk (DataTypeRT.DOptLen (s2l "Int") None) false [] /\
+  filter DataTypeContent.is_litb [DataTypeRT.TWord (s2l "int")] = [DataTypeRT.TWord (s2l "int")] /\
+  filter DataTypeContent.is_litb
+    (DataTypeRT.glue (DataTypeRT.print_dt DataTypeContent.T_int (DataTypeRT.DOptLen (s2l "Int") None))) =
+    [DataTypeRT.TWord (s2l "INT")].
+Proof. exact DataTypeContent.type_content_kw_refuted. Qed.
+Example C05_custom_modifier_content_refuted :
+  let foo := DataTypeRT.TWord (s2l "FOO") in
+  exists t1 t2,
+    DataTypeRT.parse_dt DataTypeContent.T_none (s2l "generic")
+      [foo; DataTypeRT.TLParen; DataTypeRT.TStr (s2l "x"); DataTypeRT.TRParen] = DataTypeRT.POk t1 false [] /\
+    DataTypeRT.parse_dt DataTypeContent.T_none (s2l "generic")
+      [foo; DataTypeRT.TLParen; DataTypeRT.TWord (s2l "x"); DataTypeRT.TRParen] = DataTypeRT.POk t2 false [] /\
+    DataTypeRT.dt_eqb t1 t2 = true /\
+    filter DataTypeContent.is_litb (DataTypeRT.glue (DataTypeRT.print_dt DataTypeContent.T_none t1)) =
+      [foo; DataTypeRT.TStr (s2l "x")] /\
+    filter DataTypeContent.is_litb (DataTypeRT.glue (DataTypeRT.print_dt DataTypeContent.T_none t2)) =
+      [foo; DataTypeRT.TWord (s2l "x")].
+Proof. exact DataTypeContent.custom_modifier_content_refuted. Qed.
